@@ -185,6 +185,101 @@ def _retry_edges(f, c):
     return out
 
 
+def rule_rhinit(ctx, rep, rid):
+    """every entry point that links a caller's node first records node->reverse_hash = bit_reverse_ulong(hash) of the hash it was given:
+    the chain order, every later lookup's stop test and the bucket the node belongs to are all derived from that field"""
+    m = ctx.mod("cds", "perfn")
+    TAB = {"cds_lfht_add": (1, 2), "cds_lfht_add_unique": (1, 4), "cds_lfht_add_replace": (1, 4), "cds_lfht_replace": (2, 5)}
+    for name, (harg, narg) in TAB.items():
+        g = m.fn(name)
+        if g is None:
+            raise Broken("%s vanished" % name)
+        rep.touch(g)
+        links = [c for c in g.calls() if m.fn(c.callee) is not None and m.fn(c.callee).srcname in ("_cds_lfht_add", "_cds_lfht_replace")]
+        pat.require(links, name + ": linking call")
+        sts = [s_ for s_ in g.all_insts() if s_.op == "store" and s_.d.get("ap") and s_.d["ap"]["base"] == ["a", narg] and pat.last_field(s_.d["ap"]) == "cds_lfht_node.reverse_hash"]
+        if not sts:
+            rep.bad(rid, name + ".reverse_hash", "%s links the caller's node without setting node->reverse_hash: the node sits in the chain with whatever the field held - lookups stop early or walk past it" % name, [links[0].where()])
+            continue
+        good = []
+        for s_ in sts:
+            v = ir.expr(g, s_.args[0], 4)
+            if v[0] == "call" and v[1].startswith("bit_reverse_ulong") and ir.expr(g, g.insts[v[2]].args[0], 3) == ("arg", harg):
+                good.append(s_)
+            else:
+                rep.bad(rid, name + ".reverse_hash-value", "node->reverse_hash is set to %s, not bit_reverse_ulong(hash)" % ir.expr_str(v), [s_.where()])
+        if good:
+            rep.must_pass(rid, name + ".reverse_hash", g, [g.entry()], links, lambda i, good=good: i in good, include_start=True, what="node->reverse_hash = bit_reverse_ulong(hash) before the node is linked")
+
+
+def rule_walkstart(ctx, rep, rid):
+    """every walk over the whole table starts at the first bucket node, bucket_at(ht, 0) - the head of the single ordered list
+    (traversal, emptiness test, node count, the bucket-only check of destroy); bucket 1 is somewhere in the middle of the list"""
+    m = ctx.mod("cds", "perfn")
+    n = 0
+    for name in ("cds_lfht_first", "cds_lfht_is_empty", "cds_lfht_count_nodes", "cds_lfht_delete_bucket"):
+        g = m.fn(name)
+        if g is None:
+            cand = [x for x in m.defined() if x.srcname == name]
+            g = cand[0] if cand else None
+        if g is None:
+            raise Broken("%s vanished" % name)
+        rep.touch(g)
+        cs = [c for c in g.calls() if m.fn(c.callee) is not None and m.fn(c.callee).srcname == "bucket_at" and ir.const_of(g, c.args[1]) is not None]
+        ic = [i for i in g.all_insts() if i.op == "icall" and (lambda e: e[0] == "load" and e[1].endswith("bucket_at"))(ir.expr(g, i.d["fp"])) and ir.const_of(g, i.args[1]) is not None]
+        if not cs and not ic:
+            raise Broken("%s: no bucket_at(ht, <constant>) call" % name)
+        for c in cs + ic:
+            n += 1
+            k = ir.const_of(g, c.args[1])
+            rep.check(k == 0, rid, name + ".starts-at-bucket-0", "the walk starts at bucket_at(ht, 0)", "%s starts its walk at bucket %d: every node ordered before that bucket is skipped%s" % (
+                name, k, " (a traversal misses stored nodes)" if name == "cds_lfht_first" else ""), [c.where()])
+    pat.require(n >= 4, "only %d whole-table walks found" % n)
+
+
+def rule_addreplace(ctx, rep, rid):
+    """cds_lfht_add_replace: NULL exactly when its own node went in (iter.node == node after _cds_lfht_add); an old node is returned only
+    along `_cds_lfht_replace() == 0` - the caller owns what is returned, and the loser of a race for the old node must retry, not report
+    a node somebody else obtained; the replace is applied to the node / next snapshot the duplicate search produced."""
+    f = ctx.mod("cds", "perfn").fn("cds_lfht_add_replace")
+    if f is None:
+        raise Broken("cds_lfht_add_replace vanished")
+    rep.touch(f)
+    rp = [c for c in f.calls() if f.mod.fn(c.callee) is not None and f.mod.fn(c.callee).srcname == "_cds_lfht_replace"]
+    ad = [c for c in f.calls() if f.mod.fn(c.callee) is not None and f.mod.fn(c.callee).srcname == "_cds_lfht_add"]
+    pat.require(len(rp) == 1 and len(ad) == 1, "cds_lfht_add_replace: add / replace calls")
+    rp, ad = rp[0], ad[0]
+    ok_e = [(t.blk.id, s_) for t, s_, a in pat.branch_edges_on(f, lambda a: a[0] == "eq" and a[1] == ("call", rp.callee, rp.id) and a[2] == ("c", 0))]
+    fail_e = [(t.blk.id, s_) for t, s_, a in pat.branch_edges_on(f, lambda a: a[0] == "ne" and a[1] == ("call", rp.callee, rp.id) and a[2] == ("c", 0))]
+    if not ok_e or not fail_e:
+        rep.bad(rid, "add_replace.tests-replace", "the result of _cds_lfht_replace does not decide what cds_lfht_add_replace does next", [rp.where()])
+        return
+    # after a successful replace: return (the old node); after a failed one: back to _cds_lfht_add
+    for (b_, s_), want, what in ((ok_e[0], "ret", "a successful replace returns"), (fail_e[0], "retry", "a failed replace (the old node was taken by someone else) retries from _cds_lfht_add")):
+        start = f.blocks[s_].insts[0]
+        to_add = f.reach([start], [ad], include_start=True)[0] is not None
+        to_ret = f.reach([start], None, avoid=lambda i: i is ad, stop_at_exit=True, include_start=True)[0] is not None
+        got = "retry" if to_add and not to_ret else ("ret" if to_ret and not to_add else "both")
+        rep.check(got == want, rid, "add_replace.%s" % ("on-success" if want == "ret" else "on-failure"), what,
+                  "%s: after `_cds_lfht_replace() %s 0` cds_lfht_add_replace %s - %s" % (what, "==" if want == "ret" else "!=", "goes round again" if got == "retry" else "returns",
+                  "the replaced node is handed to nobody (the retry finds its own node and reports a plain insertion)" if want == "ret" else "it hands out a node that another del / replace obtained"), [rp.where()])
+    # the value returned
+    for r in f.rets():
+        e = ir.expr(f, r.args[0], 6, through_phi=False)
+        alts = [(ir.expr(f, v, 6), blk) for v, blk in f.insts[e[1]].d["inc"]] if e[0] == "phi" else [(e, r.blk.id)]
+        for a, blk in alts:
+            if a in (("c", 0), ("null",)):
+                g = pat.dom_leaf_atoms(f, f.blocks[blk].insts[0])
+                okn = any(x[0] == "eq" and x[1][0] == "load" and x[1][1].endswith("cds_lfht_iter.node") and x[2] == ("arg", 4) for x in g)
+                rep.check(okn, rid, "add_replace.null-iff-own-node", "NULL is returned only when the search came back with the caller's own node", "NULL is returned although the search found another node", [r.where()])
+            else:
+                okv = a[0] == "load" and a[1].endswith("cds_lfht_iter.node")
+                rep.check(okv, rid, "add_replace.returns-found-node", "the node returned is the one the search found (and the replace removed)", "returns %s" % ir.expr_str(a), [r.where()])
+    a1, a2 = ir.expr(f, rp.args[2], 4), ir.expr(f, rp.args[3], 4)
+    rep.check(a1[0] == "load" and a1[1].endswith("cds_lfht_iter.node") and a2[0] == "load" and a2[1].endswith("cds_lfht_iter.next"), rid, "add_replace.replace-args", "the replace is applied to (iter.node, iter.next) of the search",
+              "the replace is applied to (%s, %s)" % (ir.expr_str(a1), ir.expr_str(a2)), [rp.where()])
+
+
 ENTRY = {
     # caller -> (match, key, unique_ret, bucket_flag): "0" constant 0, "arg" forwarded argument, "local" address of a local iterator
     "cds_lfht_add": ("0", "0", "0", 0),
